@@ -547,3 +547,20 @@ register(c_lexer_advance, id="C13.Lexer._advance", prop="C13", target=method("mi
 register(c_lexer_peek, id="C13.Lexer._peek", prop="C13", target=method("microjs.lexer", "Lexer._peek"), native=_native_lexer("_peek"))
 register(c_lexer_skip, id="C13.Lexer._skip_whitespace", prop="C13", target=method("microjs.lexer", "Lexer._skip_whitespace"), native=_native_lexer("_skip_whitespace"),
          invariants={(_SKIP, 0): inv_skip_outer, (_SKIP, 1): inv_skip_line_comment, (_SKIP, 2): inv_skip_block_comment}, prune_ms=1500, quick=False)
+
+
+# ---- fixed probes (known deviations are listed in /verif/known_findings.json and reported as KNOWN-FINDING) ------------------
+PROBES_C13 = [('raw-line-terminator-in-string', 'var r; try { eval("\'a\\rb\'"); r = \'accepted\' } catch (e) { r = e.name } r', 'SyntaxError')]
+groups.register_probes("C13", PROBES_C13)
+
+
+PROBES_C13 += [
+    ("trailing-dot-literal", "[5., 1.e3, 1.e+2, 5..toString(), [1., 2.].length].join()", "5,1000,100,5,2"),
+    ("vertical-tab-form-feed-between-tokens", "1\x0b+\x0c2", 3),
+    ("nbsp-and-bom-between-tokens", "1\xa0+\ufeff2", 3),
+    ("line-separator-between-tokens", "1\u2028+\u20292", 3),
+    ("line-comment-ends-at-cr", "var x = 1 // c\r x = 2\n x", 2),
+    ("line-comment-ends-at-ls", "var x = 1 // c\u2028 x = 2\n x", 2),
+    ("line-continuation", "'a\\\nb'.length", 2),
+    ("regex-literal-flags-are-all-identifier-characters", "var r; try { r = typeof /a/x } catch (e) { r = e.name } r", "object"),
+]
